@@ -96,9 +96,21 @@ Definition stub_main (ret : Z) (args : list Z) : list Z * Z :=
   (List.concat (map (fun a => bytes (println_i64 a)) args), ret).
 
 (* the argument is the decimal representation of an int64 (checked with Coq's parser) *)
+(* zero-padded numerals ("0012", "-0012") are decimal too: the padding is dropped before the comparison *)
+Fixpoint drop_zeros (l : list Z) : list Z :=
+  match l with
+  | d :: ((_ :: _) as r) => if (d =? 48)%Z then drop_zeros r else l
+  | _ => l
+  end.
+Definition canon_decimal (a : list Z) : list Z :=
+  match a with
+  | s :: r => if (s =? 45)%Z then s :: drop_zeros r else drop_zeros a
+  | [] => a
+  end.
 Definition in_domain (a : list Z) : option Z :=
-  match z_of_string (string_of_bytes a) with
-  | Some v => if ((- 2 ^ 63 <=? v) && (v <? 2 ^ 63))%Z && zlist_eqb (decimal v) a then Some v else None
+  let c := canon_decimal a in
+  match z_of_string (string_of_bytes c) with
+  | Some v => if ((- 2 ^ 63 <=? v) && (v <? 2 ^ 63))%Z && zlist_eqb (decimal v) c then Some v else None
   | None => None
   end.
 
